@@ -18,13 +18,6 @@ Definition a80pq := {| v_iv := [0xa0;0x40;0x0c;0x06]%N;         v_klen := 20; v_
 Definition wf_kn (v : aead_variant) (K N : bytes) : Prop :=
   length K = v_klen v /\ length N = 16.
 
-Fixpoint beq_bytes (a b : bytes) : bool :=
-  match a, b with
-  | [], [] => true
-  | x :: a', y :: b' => N.eqb x y && beq_bytes a' b'
-  | _, _ => false
-  end.
-
 Section WithPerm.
 Variable perm : nat -> bytes -> bytes.
 
